@@ -6,6 +6,8 @@ C02 driver.  Header `@ C02 <kind> <ktype> <cmp> <dump|nodump>`:
   kind  zero = `var s SkipList[K,int]`, new = `NewSkipList`, cmp = `NewSkipListWithCmp`
   ktype int | str (keys as hex bytes)
   cmp   nat | rev | mod3 (int: key mod 3, then value) | len (str: length, then bytes)
+        diff (a-b) | scaled (7(a-b)) | sgnhash (sign·(1+hash)) | bytesdiff (str: byte/length difference):
+        the natural order with results of arbitrary magnitude; halfdiff: `half` with magnitudes
         half (int: compare k>>1 — identifies 2m and 2m+1) | lenonly (str: compare lengths only):
         weak orders, `cmp a b = 0` for distinct keys; the stored key is kept on replace
 Operations (values are ints, `r` is the word the random source returns):
@@ -43,6 +45,30 @@ def cmpMod3 (a b : Int) : Int :=
 
 def cmpLen (a b : List Nat) : Int :=
   if a.length ≠ b.length then cmpInt a.length b.length else cmpBytes a b
+
+/-! Comparators whose results have arbitrary magnitudes (a comparator only promises the SIGN). -/
+
+/-- `a - b`. -/
+def cmpDiff (a b : Int) : Int := a - b
+
+/-- `7 * (a - b)`. -/
+def cmpScaled (a b : Int) : Int := 7 * (a - b)
+
+/-- `sign(a - b) * (1 + (31 a + 17 b) mod 5)`: the magnitude depends on both arguments and is not
+symmetric. -/
+def cmpSgnHash (a b : Int) : Int :=
+  let h := 1 + (31 * a + 17 * b) % 5
+  if a < b then -h else if a = b then 0 else h
+
+/-- Bytewise order with magnitudes: the difference of the first differing bytes, else of the lengths. -/
+def cmpBytesDiff : List Nat → List Nat → Int
+  | [], [] => 0
+  | [], _ :: bs => -((bs.length : Int) + 1)
+  | _ :: as, [] => (as.length : Int) + 1
+  | a :: as, b :: bs => if a ≠ b then (a : Int) - (b : Int) else cmpBytesDiff as bs
+
+/-- The weak order `k >> 1` with magnitudes. -/
+def cmpHalfDiff (a b : Int) : Int := 3 * (a / 2 - b / 2)
 
 /-- A weak order on ints: compares `k >> 1` (Go's arithmetic shift = floor division by 2). -/
 def cmpHalf (a b : Int) : Int := cmpInt (a / 2) (b / 2)
@@ -191,12 +217,17 @@ def runCase (hdr : List String) (ops : List String) : List String :=
         else if c = "rev" then runWith intIO ⟨fun a b => cmpInt b a, false, 0, 0, true⟩ kind dump ops
         else if c = "mod3" then runWith intIO ⟨cmpMod3, false, 0, 0, true⟩ kind dump ops
         else if c = "half" then runWith intIO ⟨cmpHalf, false, 0, 0, true⟩ kind dump ops
+        else if c = "diff" then runWith intIO ⟨cmpDiff, false, 0, 0, true⟩ kind dump ops
+        else if c = "scaled" then runWith intIO ⟨cmpScaled, false, 0, 0, true⟩ kind dump ops
+        else if c = "sgnhash" then runWith intIO ⟨cmpSgnHash, false, 0, 0, true⟩ kind dump ops
+        else if c = "halfdiff" then runWith intIO ⟨cmpHalfDiff, false, 0, 0, true⟩ kind dump ops
         else bad ops
       else if kt = "str" then
         if c = "nat" then runWith strIO ⟨cmpBytes, false, [], 0, true⟩ kind dump ops
         else if c = "rev" then runWith strIO ⟨fun a b => cmpBytes b a, false, [], 0, true⟩ kind dump ops
         else if c = "len" then runWith strIO ⟨cmpLen, false, [], 0, true⟩ kind dump ops
         else if c = "lenonly" then runWith strIO ⟨cmpLenOnly, false, [], 0, true⟩ kind dump ops
+        else if c = "bytesdiff" then runWith strIO ⟨cmpBytesDiff, false, [], 0, true⟩ kind dump ops
         else bad ops
       else bad ops
     else bad ops
